@@ -169,6 +169,11 @@ func (d *dispatcher) RemoveHTTPCache(key []byte) {
 	lru := d.getLRU(key)
 	lru.mu.Lock()
 	defer lru.mu.Unlock()
+	// 先将缓存与store分离，避免正在fetching的请求在purge完成后
+	// 又将数据写入store（后续的请求会从store中恢复已被purge的数据）
+	if hc, ok := lru.getCache(key); ok {
+		hc.detachStore()
+	}
 	lru.removeCache(key)
 	if d.store != nil {
 		err := d.store.Delete(key)
